@@ -1,7 +1,514 @@
-//! C05 — TODO
-use mc_core::Ctx;
+//! C05 — decoding untrusted bytes never crashes the process and round-trips honest values.
+//!
+//! Bounded exhaustive enumeration (no sampling): the input space is an explicit list of segments
+//! (`c05/space.rs`), each a finite indexed family of inputs for one decoder — blind short strings,
+//! boundary-u64 prefixes, every structural mutation of honest encodings at every nesting level and
+//! in both the CBOR and the legacy form (`c05/honest.rs`, `c05/mutate.rs`), JSON structure
+//! mutations, nesting bombs. Every input is executed on the real decoders (`c05/decoders.rs`) in
+//! worker subprocesses (`mc_core::isolate`): a worker that dies (abort on allocation failure, stack
+//! overflow, watchdog) is attributed to the input it was processing.
 
-pub fn run(_ctx: &Ctx) -> ! {
-    eprintln!("C05: not implemented");
-    std::process::exit(2)
+mod decoders;
+mod honest;
+mod mutate;
+mod space;
+
+use std::collections::BTreeMap;
+use std::io::Write;
+use std::os::unix::fs::FileExt;
+use std::path::{Path, PathBuf};
+
+use mc_core::isolate::{self, WorkerArgs};
+use mc_core::{Ctx, Report, catch, hash64};
+use serde_json::{Value, json};
+
+use decoders::DECODERS;
+use space::Space;
+
+#[global_allocator]
+static A: mc_core::isolate::CountingAlloc = mc_core::isolate::CountingAlloc;
+
+/// the decode runs on a thread with the default main-thread stack of Linux (tokio workers: 2 MiB)
+const STACK_BYTES: usize = 8 << 20;
+/// refuse single requests above this: the worker aborts at a known index instead of swapping
+const HARD_CAP: usize = 4 << 30;
+const ALLOC_FLOOR: usize = 64 << 20;
+const ALLOC_FACTOR: usize = 1024;
+const ITEM_TIMEOUT_MS: u64 = 20_000;
+const NCOUNTERS: usize = 6; // inputs, accepted, rejected, panics, honest_ok, flagged
+const INLINE_INPUT_LIMIT: usize = 2 << 20;
+
+fn alloc_limit(input_len: usize) -> usize {
+    ALLOC_FLOOR.max(input_len.saturating_mul(ALLOC_FACTOR))
+}
+
+/// classifier site from a panic location inside the repository (stable across line changes)
+fn site_from_location(loc: &str) -> Option<String> {
+    let file = loc.rsplit_once(':').map(|x| x.0).unwrap_or(loc);
+    let table: [(&str, &str); 14] = [
+        ("mithril-stm/src/proof_system/concatenation/proof.rs", "aggregate-signature-legacy"),
+        ("mithril-stm/src/protocol/aggregate_signature/signature.rs", "aggregate-signature"),
+        ("mithril-stm/src/protocol/single_signature/signature_registered_party.rs", "single-signature-with-registered-party-legacy"),
+        ("mithril-stm/src/protocol/single_signature/signature.rs", "single-signature-legacy"),
+        ("mithril-stm/src/protocol/key_registration/closed_registration_entry.rs", "closed-registration-entry-legacy"),
+        ("mithril-stm/src/membership_commitment/merkle_tree/path.rs", "merkle-batch-path-legacy"),
+        ("mithril-stm/src/membership_commitment/merkle_tree/commitment.rs", "merkle-commitment-legacy"),
+        ("mithril-stm/src/proof_system/concatenation/aggregate_key.rs", "aggregate-verification-key-legacy"),
+        ("mithril-stm/src/protocol/parameters.rs", "parameters-legacy"),
+        ("mithril-stm/src/protocol/participant/initializer.rs", "initializer-legacy"),
+        ("mithril-stm/src/codec.rs", "stm-codec"),
+        ("internal/mithril-merkle-tree/src/merkle_map.rs", "mk-map-proof"),
+        ("internal/mithril-merkle-tree/src/merkle_tree.rs", "mk-proof"),
+        ("mithril-common/src/messages/register_signature.rs", "register-signature-dmq"),
+    ];
+    for (suffix, site) in table {
+        if file.ends_with(suffix) {
+            return Some(site.to_string());
+        }
+    }
+    // any other file of the repository: its path below the crate's src/
+    for marker in ["/mithril-stm/src/", "/mithril-common/src/", "/mithril-merkle-tree/src/"] {
+        if let Some(p) = file.find(marker) {
+            return Some(file[p + 1..].replace("/src/", ":").replace('/', "."));
+        }
+    }
+    // third-party crate: registry/src/<index>/<crate-version>/...
+    if let Some(p) = file.find("/registry/src/") {
+        let rest = &file[p + "/registry/src/".len()..];
+        let mut it = rest.split('/');
+        let _index = it.next();
+        if let Some(krate) = it.next() {
+            return Some(format!("dependency:{krate}"));
+        }
+    }
+    None
+}
+
+fn panic_class(msg: &str) -> &'static str {
+    if msg.starts_with("attempt to ") && msg.contains("overflow") {
+        "arithmetic-overflow"
+    } else if msg.contains("capacity overflow") {
+        "disproportionate-allocation"
+    } else {
+        "panic"
+    }
+}
+
+struct Verdict {
+    class: Option<&'static str>,
+    msg: String,
+    loc: String,
+    accepted: bool,
+    rejected: bool,
+    panicked: bool,
+    honest_ok: bool,
+    max_request: usize,
+}
+
+/// run one input through one decoder and judge it (oracle clauses 1–3, 5)
+fn judge(decoder: usize, bytes: &[u8], honest: Option<&[u8]>) -> Verdict {
+    let d = &DECODERS[decoder];
+    let mut v = Verdict { class: None, msg: String::new(), loc: String::new(), accepted: false, rejected: false, panicked: false, honest_ok: false, max_request: 0 };
+    isolate::reset_max_request();
+    let r = catch(|| (d.run)(bytes));
+    v.max_request = isolate::max_request();
+    match r {
+        Err(p) => {
+            v.panicked = true;
+            v.class = Some(panic_class(&p));
+            v.msg = format!("panicked with '{p}'");
+            v.loc = mc_core::last_panic_location();
+        }
+        Ok(Ok(canon)) => {
+            v.accepted = true;
+            if let Some(exp) = honest {
+                if canon == exp {
+                    v.honest_ok = true;
+                } else {
+                    v.class = Some("roundtrip-mismatch");
+                    v.msg = format!(
+                        "decoded an honest encoding to a different value: re-encoding {} differs from the original's {}",
+                        short_hex(&canon, 48),
+                        short_hex(exp, 48)
+                    );
+                }
+            }
+        }
+        Ok(Err(e)) => {
+            v.rejected = true;
+            if honest.is_some() {
+                v.class = Some("roundtrip-mismatch");
+                v.msg = format!("rejected an honest encoding: {e}");
+            }
+        }
+    }
+    if v.class.is_none() && v.max_request > alloc_limit(bytes.len()) {
+        v.class = Some("disproportionate-allocation");
+        v.msg = format!("requested a single allocation of {} bytes for an input of {} bytes", v.max_request, bytes.len());
+    }
+    v
+}
+
+fn short_hex(b: &[u8], max: usize) -> String {
+    if b.len() <= max { hex::encode(b) } else { format!("{}…({} bytes)", hex::encode(&b[..max]), b.len()) }
+}
+
+fn side_file(progress: &Path, what: &str, start: u64) -> PathBuf {
+    PathBuf::from(format!("{}.{what}.{start}", progress.display()))
+}
+
+// ------------------------------------------------------------------------------------------------
+// worker
+// ------------------------------------------------------------------------------------------------
+
+fn worker(ctx: &Ctx, args: WorkerArgs) -> ! {
+    isolate::HARD_CAP.store(HARD_CAP, std::sync::atomic::Ordering::Relaxed);
+    let tier = ctx.tier;
+    let replay = std::env::var("C05_REPLAY_INPUT").ok().filter(|_| args.sweep == "replay");
+    let h = std::thread::Builder::new()
+        .stack_size(STACK_BYTES)
+        .name("c05-decode".into())
+        .spawn(move || {
+            if let Some(path) = replay {
+                let bytes = std::fs::read(&path).expect("replay input");
+                let decoder = decoders::index_of(&std::env::var("C05_REPLAY_DECODER").expect("decoder")).expect("known decoder");
+                args.run(1, ITEM_TIMEOUT_MS, |_| {
+                    let v = judge(decoder, &bytes, None);
+                    Some(json!({"c": v.class, "msg": v.msg, "loc": v.loc, "maxreq": v.max_request, "accepted": v.accepted}).to_string())
+                });
+            }
+            let worlds = space::worlds();
+            let sp = space::build(tier, &worlds);
+            let counters_file = std::fs::File::create(side_file(&args.progress, "cnt", args.start)).expect("counter file");
+            let mut nt_file = std::fs::File::create(side_file(&args.progress, "nt", args.start)).expect("nontrivial file");
+            let mut counters = vec![[0u64; NCOUNTERS]; DECODERS.len()];
+            // throttle: per (class, decoder, location) how many were reported and the shortest input
+            let mut reported: BTreeMap<(String, usize, String), (u64, usize)> = BTreeMap::new();
+            args.run(sp.total, ITEM_TIMEOUT_MS, |i| {
+                let inp = sp.input(i);
+                let d = inp.seg.decoder;
+                let v = judge(d, &inp.bytes, inp.seg.honest.as_deref());
+                let c = &mut counters[d];
+                c[0] += 1;
+                c[1] += v.accepted as u64;
+                c[2] += v.rejected as u64;
+                c[3] += v.panicked as u64;
+                c[4] += v.honest_ok as u64;
+                c[5] += v.class.is_some() as u64;
+                let mut row = [0u8; NCOUNTERS * 8];
+                for (j, x) in c.iter().enumerate() {
+                    row[j * 8..j * 8 + 8].copy_from_slice(&x.to_le_bytes());
+                }
+                let _ = counters_file.write_at(&row, (d * NCOUNTERS * 8) as u64);
+                if inp.seg.derived || v.accepted {
+                    let _ = nt_file.write_all(&hash64(&(d, &inp.bytes)).to_le_bytes());
+                }
+                let class = v.class?;
+                let e = reported.entry((class.to_string(), d, v.loc.clone())).or_insert((0, usize::MAX));
+                e.0 += 1;
+                if e.0 > 40 && inp.bytes.len() >= e.1 {
+                    return None;
+                }
+                e.1 = e.1.min(inp.bytes.len());
+                Some(json!({"c": class, "msg": v.msg, "loc": v.loc, "maxreq": v.max_request}).to_string())
+            })
+        })
+        .expect("spawn decode thread");
+    let _ = h.join();
+    std::process::exit(3)
+}
+
+// ------------------------------------------------------------------------------------------------
+// parent
+// ------------------------------------------------------------------------------------------------
+
+struct Finding {
+    key: String,
+    bytes_len: usize,
+    bytes: Vec<u8>,
+    what: String,
+    replay: Value,
+}
+
+fn replay_value(decoder: &str, site: &str, bytes: &[u8], tier: &str, index: Option<u64>) -> Value {
+    let mut v = json!({"decoder": decoder, "site": site, "input_len": bytes.len()});
+    if bytes.len() <= INLINE_INPUT_LIMIT {
+        v["input_hex"] = json!(hex::encode(bytes));
+    } else {
+        v["input_hex"] = Value::Null;
+        v["input_index"] = json!({"tier": tier, "index": index});
+    }
+    v
+}
+
+fn death_class(status: &str, stderr: &str) -> (&'static str, String) {
+    if status.starts_with("hang") {
+        ("hang", format!("did not return within {} s (watchdog)", ITEM_TIMEOUT_MS / 1000))
+    } else if stderr.contains("memory allocation of") {
+        ("disproportionate-allocation", format!("aborted the process: {}", stderr.trim()))
+    } else if stderr.contains("overflowed its stack") || status == "signal 11" {
+        ("abort", format!("overflowed the {} MiB stack and killed the process ({status}): {}", STACK_BYTES >> 20, stderr.trim()))
+    } else {
+        ("abort", format!("killed the process ({status}): {}", stderr.trim()))
+    }
+}
+
+fn rule_text() -> &'static str {
+    "every element of the explicitly generated input space of every decoder entry point is decoded by the real code in a \
+     worker subprocess: (a) all byte strings of length <= 2 and all strings over {00,01,7f,80,ff} up to the stated length, \
+     boundary-u64 prefixes; (b) for honest values in every encoding (versioned CBOR, legacy fixed layout, bincode, JSON, \
+     bytes-hex, json-hex) and at every nesting level (component re-wrapped with correct outer lengths, CBOR and legacy \
+     chosen independently per level): every truncation, every position x {00,01,7f,80,ff,b^1,b+1}, every 8-byte window x \
+     boundary u64 values, every CBOR head -> 8-byte/4-byte/indefinite length, every bincode varint inflated, byte \
+     deletions/insertions, appended tails, pairs of legacy length fields; (c) JSON: every number/string/array/object node \
+     replaced by boundary numbers, malformed strings, empty/10^4-element arrays, missing/unknown/duplicate keys, and nesting \
+     bombs. An input is non-trivial when it is derived from an honest encoding or is accepted by the decoder; distinct = \
+     distinct (decoder, input bytes)"
+}
+
+fn base_report(ctx: &Ctx) -> Report {
+    let mut rep = Report::new("exploration", rule_text());
+    let t = space::Tiering::new(ctx.tier);
+    rep.extra("bounds", t.describe());
+    rep.extra(
+        "oracle",
+        json!({
+            "no_panic": true,
+            "no_process_death": "abort / SIGSEGV / stack overflow of the worker is attributed to the input",
+            "stack_bytes": STACK_BYTES,
+            "max_single_allocation": format!("max({} MiB, {} x input length); requests above {} GiB are refused (abort)", ALLOC_FLOOR >> 20, ALLOC_FACTOR, HARD_CAP >> 30),
+            "per_input_timeout_ms": ITEM_TIMEOUT_MS,
+            "round_trip": "decode(encode(honest value)) re-encodes to the bytes of the original value, for every accepted form",
+            "overflow_checks": "on (arithmetic overflow panics; reported under C05/arithmetic-overflow:*)",
+        }),
+    );
+    rep.extra(
+        "decoders",
+        Value::Array(DECODERS.iter().map(|d| json!({"name": d.name, "entry_points": d.entry_points})).collect()),
+    );
+    rep.assume("mithril-stm / mithril-common are built with their default features (no future_snark): SNARK decoders, MerklePath and MerkleTreeCommitment are not compiled and not covered");
+    rep.assume("the legacy fixed layouts have no encoder in the code base; honest legacy encodings are written by the harness from the decoders' layout comments (checked: they decode to the original value)");
+    rep.assume("MerkleBatchPath::from_bytes and MerkleTreeBatchCommitment::from_bytes / ClosedRegistrationEntry::from_bytes are crate-private: they are driven through AggregateSignature / AggregateVerificationKeyForConcatenation / SingleSignatureWithRegisteredParty with the component re-wrapped");
+    rep.assume("decoding runs on an 8 MiB stack (Linux main-thread default); a single allocation request is 'out of proportion' above max(64 MiB, 1024 x input length)");
+    rep.assume("third-party decoders (ciborium, bincode, serde_json, hex, blst, ed25519-dalek, kes-summed-ed25519) are exercised only through the Mithril entry points");
+    rep
+}
+
+fn replay(ctx: &Ctx, path: &Path) -> ! {
+    let mut rep = base_report(ctx);
+    let v = mc_core::load_replay(path);
+    let decoder = v["decoder"].as_str().unwrap_or("").to_string();
+    let site = v["site"].as_str().unwrap_or("replay").to_string();
+    let Some(di) = decoders::index_of(&decoder) else {
+        rep.machinery_error(format!("replay names unknown decoder '{decoder}'"));
+        rep.finish(ctx)
+    };
+    let bytes: Vec<u8> = match v["input_hex"].as_str() {
+        Some(h) => hex::decode(h).unwrap_or_default(),
+        None => {
+            // a large input: regenerate it from (tier, index)
+            let idx = v["input_index"]["index"].as_u64().unwrap_or(0);
+            let worlds = space::worlds();
+            let sp = space::build(ctx.tier, &worlds);
+            if idx >= sp.total {
+                rep.machinery_error("replay index outside the space of this tier".into());
+                rep.finish(ctx)
+            }
+            sp.input(idx).bytes
+        }
+    };
+    let scratch = ctx.scratch();
+    let f = scratch.join("replay-input.bin");
+    std::fs::write(&f, &bytes).expect("write replay input");
+    // the child reads the case from the environment (safe: set before any thread is started)
+    unsafe {
+        std::env::set_var("C05_REPLAY_INPUT", &f);
+        std::env::set_var("C05_REPLAY_DECODER", &decoder);
+    }
+    let res = isolate::run_sweep(ctx, "replay", 1, 1, 1);
+    rep.eval();
+    rep.nontrivial(&0u8);
+    rep.nontrivial(&1u8);
+    let name = DECODERS[di].name;
+    let describe = |what: &str| format!("decoder {name} on input {} ({} bytes): {what}", short_hex(&bytes, 64), bytes.len());
+    for d in &res.deaths {
+        let (class, what) = death_class(&d.status, &d.stderr_tail);
+        rep.outcome("death");
+        rep.violation(&format!("C05/{class}:{site}"), describe(&what), v.clone());
+    }
+    for (_, line) in &res.lines {
+        let l: Value = serde_json::from_str(line).unwrap_or(Value::Null);
+        rep.outcome(if l["accepted"].as_bool() == Some(true) { "accepted" } else { "not-accepted" });
+        if let Some(class) = l["c"].as_str() {
+            let loc = l["loc"].as_str().unwrap_or("");
+            let s = site_from_location(loc).unwrap_or(site.clone());
+            rep.violation(&format!("C05/{class}:{s}"), describe(&format!("{} at {loc}", l["msg"].as_str().unwrap_or(""))), v.clone());
+        }
+    }
+    rep.finish(ctx)
+}
+
+pub fn run(ctx: &Ctx) -> ! {
+    if std::env::var_os("C05_DEBUG").is_some() {
+        let _ = std::panic::take_hook();
+    }
+    if let Some(args) = WorkerArgs::parse(ctx) {
+        worker(ctx, args);
+    }
+    if let Some(path) = &ctx.replay {
+        replay(ctx, &path.clone());
+    }
+    let mut rep = base_report(ctx);
+    let worlds = space::worlds();
+    for w in &worlds.stm {
+        if let Err(e) = honest::self_check(w) {
+            rep.machinery_error(e);
+        }
+    }
+    if !rep.machinery_errors.is_empty() {
+        rep.finish(ctx);
+    }
+    let sp: Space = space::build(ctx.tier, &worlds);
+    let nworkers = (ctx.threads() as u64).clamp(1, 32);
+    rep.extra("space_size", json!(sp.total));
+    rep.extra("segments", json!(sp.segs.len()));
+    rep.extra("worker_processes", json!(nworkers));
+    let res = isolate::run_sweep(ctx, "main", sp.total, nworkers, 400);
+
+    // counters and non-trivial hashes written by the workers
+    let scratch = ctx.scratch();
+    let mut counters = vec![[0u64; NCOUNTERS]; DECODERS.len()];
+    let mut hashes: Vec<u64> = vec![];
+    if let Ok(rd) = std::fs::read_dir(&scratch) {
+        let mut names: Vec<PathBuf> = rd.filter_map(|e| e.ok().map(|e| e.path())).collect();
+        names.sort();
+        for p in names {
+            let n = p.file_name().and_then(|s| s.to_str()).unwrap_or("").to_string();
+            if n.contains(".cnt.") {
+                let b = std::fs::read(&p).unwrap_or_default();
+                for (d, row) in counters.iter_mut().enumerate() {
+                    for (j, c) in row.iter_mut().enumerate() {
+                        let o = (d * NCOUNTERS + j) * 8;
+                        if let Some(x) = b.get(o..o + 8) {
+                            *c += u64::from_le_bytes(x.try_into().unwrap());
+                        }
+                    }
+                }
+            } else if n.contains(".nt.") {
+                let b = std::fs::read(&p).unwrap_or_default();
+                hashes.extend(b.chunks_exact(8).map(|x| u64::from_le_bytes(x.try_into().unwrap())));
+            }
+        }
+    }
+    hashes.sort_unstable();
+    hashes.dedup();
+    rep.nontrivial.extend(hashes.iter().copied());
+    drop(hashes);
+
+    let mut per_decoder = serde_json::Map::new();
+    let (mut acc, mut rej, mut pan) = (0u64, 0u64, 0u64);
+    let mut space_per_decoder = vec![0u64; DECODERS.len()];
+    for s in &sp.segs {
+        space_per_decoder[s.decoder] += s.count;
+    }
+    for (d, c) in counters.iter().enumerate() {
+        per_decoder.insert(
+            DECODERS[d].name.to_string(),
+            json!({"space": space_per_decoder[d], "inputs": c[0], "accepted": c[1], "rejected": c[2], "panics": c[3], "honest_round_trips_ok": c[4], "flagged": c[5]}),
+        );
+        rep.evaluations += c[0];
+        acc += c[1];
+        rej += c[2];
+        pan += c[3];
+        if space_per_decoder[d] == 0 {
+            rep.machinery_error(format!("decoder {} has an empty input space", DECODERS[d].name));
+        }
+    }
+    rep.extra("per_decoder", Value::Object(per_decoder));
+    rep.outcome_n("accepted", acc);
+    rep.outcome_n("rejected", rej);
+    if pan > 0 {
+        rep.outcome_n("panicked", pan);
+    }
+    let real_deaths: Vec<_> = res.deaths.iter().filter(|d| d.index != u64::MAX).collect();
+    if !real_deaths.is_empty() {
+        rep.outcome_n("process-died", real_deaths.len() as u64);
+        rep.evaluations += real_deaths.len() as u64;
+    }
+    rep.add_extra("honest_round_trips_ok", counters.iter().map(|c| c[4]).sum());
+    for d in res.deaths.iter().filter(|d| d.index == u64::MAX) {
+        rep.machinery_error(format!("a worker died outside an item ({}): {}", d.status, d.stderr_tail));
+    }
+    if res.processed != sp.total {
+        rep.exhaustive = false;
+        rep.extra("processed", json!(res.processed));
+    }
+
+    // findings
+    let tier = ctx.tier.as_str();
+    let mut findings: Vec<Finding> = vec![];
+    let describe = |idx: u64, inp: &space::Input<'_>, what: &str| {
+        let d = &DECODERS[inp.seg.decoder];
+        format!(
+            "decoder {} ({}) on input {} ({} bytes; space index {idx}: {} #{}) {what}",
+            d.name,
+            d.entry_points,
+            short_hex(&inp.bytes, 96),
+            inp.bytes.len(),
+            inp.seg.label,
+            inp.k
+        )
+    };
+    for (idx, line) in &res.lines {
+        let l: Value = serde_json::from_str(line).unwrap_or(Value::Null);
+        let Some(class) = l["c"].as_str() else { continue };
+        if *idx >= sp.total {
+            continue;
+        }
+        let inp = sp.input(*idx);
+        let loc = l["loc"].as_str().unwrap_or("");
+        let site = if class == "roundtrip-mismatch" { inp.seg.site.to_string() } else { site_from_location(loc).unwrap_or(inp.seg.site.to_string()) };
+        let what = if loc.is_empty() { l["msg"].as_str().unwrap_or("").to_string() } else { format!("{} at {loc}", l["msg"].as_str().unwrap_or("")) };
+        findings.push(Finding {
+            key: format!("C05/{class}:{site}"),
+            bytes_len: inp.bytes.len(),
+            what: describe(*idx, &inp, &what),
+            replay: replay_value(DECODERS[inp.seg.decoder].name, &site, &inp.bytes, tier, Some(*idx)),
+            bytes: if inp.bytes.len() <= 4096 { inp.bytes } else { vec![] },
+        });
+    }
+    for d in real_deaths {
+        let inp = sp.input(d.index);
+        let (class, what) = death_class(&d.status, &d.stderr_tail);
+        let site = inp.seg.site.to_string();
+        findings.push(Finding {
+            key: format!("C05/{class}:{site}"),
+            bytes_len: inp.bytes.len(),
+            what: describe(d.index, &inp, &what),
+            replay: replay_value(DECODERS[inp.seg.decoder].name, &site, &inp.bytes, tier, Some(d.index)),
+            bytes: if inp.bytes.len() <= 4096 { inp.bytes } else { vec![] },
+        });
+    }
+    // smallest input first within each key
+    findings.sort_by(|a, b| (&a.key, a.bytes_len, &a.bytes).cmp(&(&b.key, b.bytes_len, &b.bytes)));
+    for f in findings {
+        rep.violation(&f.key, f.what, f.replay);
+    }
+
+    // a few actual cases
+    for name in ["stm/aggregate-signature.bytes", "key/multi-signature.text", "merkle/mk-map-proof.bytes", "message/certificate.json"] {
+        let d = decoders::index_of(name).unwrap();
+        let mut start = 0u64;
+        for s in &sp.segs {
+            if s.decoder == d && s.count > 3 && s.derived {
+                let k = s.count / 2;
+                let b = (s.generate)(k);
+                rep.sample(json!({"decoder": name, "segment": s.label, "element": k, "space_index": start + k, "input": short_hex(&b, 80), "input_len": b.len()}));
+                break;
+            }
+            start += s.count;
+        }
+    }
+    let _ = std::io::stderr().flush();
+    rep.finish(ctx)
 }
